@@ -24,14 +24,14 @@ from harness.gen import Gen
 
 D = datetime.date
 JOIN_TYPES = ["full", "inner", "left", "right", "left_anti", "right_anti"]
-ON_ATTRS = ["country", "lob", "currency"]          # a top-level attribute, a details key, another attribute
+ON_ATTRS = ["country", "lob", "per_occurrence_limit"]   # a str attribute, a details key, the numeric attribute
 HEADER = r"""From Bermuda Require Import Model.Select Model.Join.
 From Gen Require Import GenPred.
 Definition o_none : option (list str) := None.
 Definition o_empty : option (list str) := Some [].
 Definition a_country : str := [99;111;117;110;116;114;121].
 Definition a_lob : str := [108;111;98].
-Definition a_currency : str := [99;117;114;114;101;110;99;121].
+Definition a_limit : str := s_per_occurrence_limit.
 Definition code (m s : bool) : nat := if m then (if s then 0 else 2) else (if s then 1 else 3).
 Definition known_jt (jt : str) : bool :=
   str_mem jt [s_full; s_left; s_right; s_inner; s_left_anti; s_right_anti].
@@ -78,22 +78,28 @@ def universes(basis):
     """three 5-cell universes with the same coordinates/metadata and different values / field sets.
     Metadata differ in country, details['lob'], currency so that every `on` subset merges some."""
     b = jc.bermuda()
-    A = dict(country="US", details={"lob": "auto", "n": 1})
-    B = dict(country="US", details={"lob": "home", "n": 1})
-    C = dict(country="DE", currency="EUR", details={"lob": "auto"}, loss_details={"cov": "x"})
+    A = dict(country="US", per_occurrence_limit=1000, details={"lob": "auto", "n": 1})
+    B = dict(country="US", per_occurrence_limit=1000, details={"lob": "home", "n": 1})
+    C = dict(country="DE", currency="EUR", per_occurrence_limit=2500.5, details={"lob": "auto"}, loss_details={"cov": "x"})
     P1 = (D(2020, 1, 1), D(2020, 3, 31))
     P2 = (D(2020, 4, 1), D(2020, 6, 30))
     E1, E2 = D(2020, 3, 31), D(2020, 6, 30)
     coords = [(A, P1, E1), (A, P1, E2), (B, P1, E1), (C, P1, E1), (A, P2, E2)]
+    # None is a valid field value: on the right it must override a left value / appear as a right-only
+    # field (merge, period_merge, add_statics sources); on the left it must be overridden
     vals = [
-        [{"paid": 1, "prem": 10}, {"paid": 2}, {"paid": 3, "rep": 7}, {"rep": 4.5, "paid": 9}, {"prem": 5}],
-        [{"prem": 11, "paid": 100, "extra": 1.5}, {"rep": 20}, {"paid": 30}, {"paid": 9, "rep": 40.0}, {"prem": 5, "paid": 50}],
-        [{"paid": 1000}, {"paid": 2000, "prem": 7}, {"z": 0}, {}, {"prem": 6.25}],
+        [{"paid": 1, "prem": 10}, {"paid": 2, "rep": None}, {"paid": 3, "rep": 7}, {"rep": 4.5, "paid": 9}, {"prem": 5}],
+        [{"prem": 11, "paid": None, "extra": 1.5, "only_r": None}, {"rep": 20, "paid": None}, {"paid": 30, "rep": None},
+         {"paid": 9, "rep": 40.0}, {"prem": None, "paid": 50}],
+        [{"paid": None}, {"paid": 2000, "prem": 7}, {"z": 0, "paid": None}, {}, {"prem": 6.25}],
     ]
     out = []
-    for vs in vals:
+    for ui, vs in enumerate(vals):
         cells = []
         for (mk, (s, e), ev), v in zip(coords, vs):
+            mk = dict(mk)
+            if ui == 1 and isinstance(mk.get("per_occurrence_limit"), int):
+                mk["per_occurrence_limit"] = float(mk["per_occurrence_limit"])   # 1000 == 1000.0: the same slice
             m = b.Metadata(**{k: (dict(x) if isinstance(x, dict) else x) for k, x in mk.items()})
             if basis == "inc":
                 prev = s - datetime.timedelta(days=1) if ev == E1 or (s, e) == P2 else E1
@@ -293,7 +299,7 @@ def oracle_pm(t1, t2, sfx, res):
 
 
 # =============================================================================== running + Coq terms
-ANAME = {"country": "a_country", "lob": "a_lob", "currency": "a_currency"}
+ANAME = {"country": "a_country", "lob": "a_lob", "per_occurrence_limit": "a_limit"}
 JNAME = {"full": "s_full", "inner": "s_inner", "left": "s_left", "right": "s_right",
          "left_anti": "s_left_anti", "right_anti": "s_right_anti"}
 
@@ -426,9 +432,9 @@ def exhaustive(ctx, run: Runner, basis, full_coq, masks=32):
     cs.shared = shared
     cs._new()
     inc = basis == "inc"
-    ons = on_variants() if full_coq or not inc else [None, ["country"], ["lob", "currency"]]
+    ons = on_variants() if full_coq or not inc else [None, ["country"], ["lob", "per_occurrence_limit"]]
     others = [o for o in ons if o is not None]
-    fls = ([], ["prem"], ["paid", "rep"], ["prem", "paid", "rep", "extra", "nope"])
+    fls = ([], ["prem"], ["paid", "rep"], ["prem", "paid", "rep", "extra", "only_r", "nope"])
     for m1 in range(masks):
         for m2 in range(masks):
             t1, t2 = tris["l", m1], tris["r", m2]
@@ -485,6 +491,10 @@ def derive_second(t, rng, g: Gen):
                     vals[k] = g.value(rng.choice(["int", "float"]))
             if rng.random() < 0.5:
                 vals["added_field"] = g.value("int")
+            if vals and rng.random() < 0.4:           # a None overriding a left value
+                vals[rng.choice(sorted(vals))] = None
+            if rng.random() < 0.3:                    # a right-only None field
+                vals["none_field"] = None
             items = list(vals.items())
             rng.shuffle(items)
             cells.append(jc.with_values(c, dict(items)))
@@ -511,7 +521,8 @@ def random_pairs(ctx, run: Runner, n):
             warnings.simplefilter("ignore")
             cells, info = g.cells(basis=basis, n_slices=[1, 2, 3][k % 3], values=["int", "float", "mixed"][k % 3],
                                   n_periods=rng.randint(1, 3), n_lags=rng.randint(1, 3), same_fields=(k % 2 == 0),
-                                  slice_diff=rng.choice(["country", "currency", "details", "several", "loss_details"]))
+                                  slice_diff=rng.choice(["country", "currency", "details", "several", "loss_details",
+                                                         "per_occurrence_limit"]))
         if len(cells) > 14:
             cells = cells[:14]
         if k % 4 == 3 and cells:      # equal metadata written differently on the right operand only
@@ -541,6 +552,10 @@ def random_pairs(ctx, run: Runner, n):
             run.join_merge(t1, t2, f"a{k}", f"b{k}", jt, on, {"t1": j1, "t2": j2, "jt": jt, "on": on})
         run.join_merge(t2, t1, f"b{k}", f"a{k}", rng.choice(JOIN_TYPES), None,
                        {"t1": j2, "t2": j1, "jt": "full", "on": None}, do_join=False) if False else None
+        if k % 5 == 0:        # always some joins on the numeric attribute
+            for jt in ("full", "inner", "left_anti"):
+                run.join_merge(t1, t2, f"a{k}", f"b{k}", jt, ["per_occurrence_limit"],
+                               {"t1": j1, "t2": j2, "jt": jt, "on": ["per_occurrence_limit"]})
         fields = sorted({x for c in t2.cells for x in c.values})
         for fs in ([], fields[:1], rng.sample(fields, min(2, len(fields))), fields + ["nope"]):
             run.statics(t1, t2, f"a{k}", f"b{k}", fs, {"t1": j1, "t2": j2, "fields": fs})
@@ -692,7 +707,7 @@ def correspond(ctx):
             ctx.violation("obligation", f"cases file {name} does not compile", {"output": out}, found_input=False)
     for d in run.fails[:2]:
         ctx.sample({"failing": {k: v for k, v in d[0].items() if k not in ("t1", "t2", "ts")}})
-    ctx.sample({"universe": "5 cells: (A,P1,E1) (A,P1,E2) (B,P1,E1) (C,P1,E1) (A,P2,E2); A/B share country, A/C share lob",
+    ctx.sample({"universe": "5 cells: (A,P1,E1) (A,P1,E2) (B,P1,E1) (C,P1,E1) (A,P2,E2); A/B share country and limit, A/C share lob; right operand has None values",
                 "example_case": {"basis": "cum", "left": 0b10011, "right": 0b00111, "jt": "left_anti", "on": ["country"]}})
 
 
@@ -716,8 +731,9 @@ def expand(data):
 def run(ctx):
     ctx.rule = (
         "exhaustive: all 32x32 pairs of sub-triangles (incl. empty) of a 5-cell universe (operands carry different "
-        "values/field sets at equal coordinates; metadata differ in country / details.lob / currency) x 6 join types x "
-        "{None, [], every non-empty subset of [country, lob, currency]} for join and merge, x suffixes for period_merge, "
+        "values/field sets at equal coordinates, including None values that override / are right-only; metadata differ "
+        "in country / details.lob / currency / per_occurrence_limit, the limit written 1000 on the left and 1000.0 on "
+        "the right) x 6 join types x {None, [], every non-empty subset of [country, lob, per_occurrence_limit]} for join and merge, x suffixes for period_merge, "
         "x 4 field lists for add_statics; all 32^3 triples for coalesce; cumulative and incremental (incremental with "
         "a prev_evaluation_date-only difference).  The real operations and the Python oracles run on that full product "
         "(quick tier, incremental: 3 `on` variants, a quarter of the triples); inside coqc the thorough tier evaluates "
